@@ -661,7 +661,7 @@ def codec_families():
         import yaml
         from mashumaro.codecs.yaml import YAMLDecoder, YAMLEncoder
 
-        fams["yaml"] = (YAMLEncoder, YAMLDecoder, lambda s: yaml.load(s, Loader=getattr(yaml, "CSafeLoader", yaml.SafeLoader)), lambda o: yaml.dump(o, Dumper=getattr(yaml, "CDumper", yaml.Dumper)), None)
+        fams["yaml"] = (YAMLEncoder, YAMLDecoder, lambda s: yaml.load(s, Loader=getattr(yaml, "CSafeLoader", yaml.SafeLoader)), lambda o: yaml.dump(o, Dumper=getattr(yaml, "CDumper", yaml.Dumper), sort_keys=False), None)
     except ImportError:
         pass
     try:
